@@ -20,10 +20,10 @@ import vseam
 
 TAG = "x14"
 CFG = {
-    "quick":    dict(mc=["MC_TreeUse.cfg", "MC_TreeUse_s.cfg"], gen=["Gen_TreeUse.cfg", "Gen_TreeUse_s.cfg"],
-                     nhist=12, steps=90, nhist_cxx=6, cxx_every={"Gen_TreeUse.cfg": 2}),
+    "quick":    dict(mc=["MC_TreeUse.cfg", "MC_TreeUse_s.cfg"], gen=["Gen_TreeUse_d.cfg", "Gen_TreeUse.cfg", "Gen_TreeUse_s.cfg"],
+                     nhist=12, steps=90, nhist_cxx=6, cxx_every={"Gen_TreeUse.cfg": 2, "Gen_TreeUse_d.cfg": 2}),
     "thorough": dict(mc=["MC_TreeUse_c.cfg", "MC_TreeUse_t.cfg", "MC_TreeUse_st.cfg", "MC_TreeUse_s6.cfg"],
-                     gen=["Gen_TreeUse_s.cfg", "Gen_TreeUse_s6.cfg", "Gen_TreeUse_t.cfg", "Gen_TreeUse_st.cfg", "Gen_TreeUse_t5.cfg"],
+                     gen=["Gen_TreeUse_dt.cfg", "Gen_TreeUse_s.cfg", "Gen_TreeUse_s6.cfg", "Gen_TreeUse_t.cfg", "Gen_TreeUse_st.cfg", "Gen_TreeUse_t5.cfg"],
                      nhist=60, steps=200, nhist_cxx=40, cxx_every={"Gen_TreeUse_t5.cfg": 3}),
 }
 ENV = {"ASAN_OPTIONS": vlib.ASAN_ENV + ":symbolize=0"}
